@@ -82,12 +82,22 @@ _SPEC_SHARED = {("Struct", "TypeDecl", "type"), ("Union", "TypeDecl", "type"), (
                 ("Alignas", "Decl", "align")}
 
 
-def _shared_node(ast):
+# Parts of an `_Atomic(type-name)` SPECIFIER other than its declarator chain:
+# like a struct specifier they belong to the specifier and are shared by the
+# declarators of the declaration ('_Atomic(int (*)[3]) a, b;' - lead's triage
+# after repair c8fa55b, which copies the chain only to keep the cost linear).
+_ATOMIC_SPEC_SHARED = {("ArrayDecl", "dim"), ("FuncDecl", "args")}
+
+
+def _shared_node(ast, text=""):
     """Structural invariant on every parsed AST: no c_ast.Node object is
     reachable twice (walk over __slots__, identity based) - except the one
     specifier node (Struct/Union/Enum, Alignas) that the declarators of one
-    declaration share.  Returns a signature or None."""
+    declaration share, and the non-chain parts of an `_Atomic(...)` specifier
+    (only in programs that spell one).  Returns a signature or None."""
     from pycparser import c_ast
+
+    atomic_spec = "_Atomic (" in text or "_Atomic(" in text
 
     Node = c_ast.Node
     seen = set()
@@ -98,6 +108,8 @@ def _shared_node(ast):
         i = id(node)
         if i in seen:
             if (cls, pcls, fld) in _SPEC_SHARED:
+                continue
+            if atomic_spec and (pcls, fld) in _ATOMIC_SPEC_SHARED:
                 continue
             return f"shared-node:{cls} under {pcls}.{fld}"
         seen.add(i)
@@ -153,7 +165,7 @@ class Acc:
             r = ("rejected", str(out[1:])[:200], False)
         else:
             self.parsed += 1
-            sh = _shared_node(out[1])
+            sh = _shared_node(out[1], text)
             if sh is not None:
                 self.fail(sh, {"text": text, "shared_node_check": True}, sh)
             got = core.canon(out[1])
@@ -643,7 +655,7 @@ def _work_c_complit(task):
                 A.fail("c:compound-literal:rejected", {"text": text, "family": "c-complit"}, str(out[1:])[:200])
                 continue
             A.parsed += 1
-            sh = _shared_node(out[1])
+            sh = _shared_node(out[1], text)
             if sh is not None:
                 A.fail(sh, {"text": text, "shared_node_check": True}, sh)
             got = core.canon(out[1])
@@ -1407,7 +1419,7 @@ def replay(rep):
         print("outcome :", out[:2])
         return 1
     if c.get("shared_node_check"):
-        sh = _shared_node(out[1])
+        sh = _shared_node(out[1], c["text"])
         print("node identity:", sh or "no node is reachable twice")
         return 1 if sh else 0
     if "expected_alignas_in_order" in c:
